@@ -764,4 +764,437 @@ Proof.
       cbn [Trie.with_child skelb]. rewrite (IHl _ q h Hl Hq Hh). reflexivity.
 Qed.
 
+(* ---------------------------------------------------------------------------------------- *)
+(** * [rc] ([remove_children] below a node that properly covers the query) *)
+
+Lemma rc_node i p v l r q a :
+  rc (Node i p v l r) q a =
+  if peq p q then (Node i p v l r, a) else
+  let s := to_right p q in
+  let c := child_of l r s in
+  match c with
+  | Leaf => (Node i p v l r, a)
+  | Node _ cp _ _ _ =>
+    if contains cp q then
+      if peq cp q then (with_child i p v l r s Leaf, free_all pfx V c a)
+      else let '(c', a') := rc c q a in (with_child i p v l r s c', a')
+    else if contains q cp then (with_child i p v l r s Leaf, free_all pfx V c a)
+    else (Node i p v l r, a)
+  end.
+Proof. reflexivity. Qed.
+
+(** the root of the subtree is not the query itself.  [rc] returns the tree unchanged when it is
+    ([remove_children] diverts that case to [clear]), so the specification needs this. *)
+Definition root_strict (t : tree) (q : pfx) : Prop :=
+  match t with Leaf => True | Node _ p _ _ _ => bits p <> bits q end.
+
+Definition rc_post (b : list bool) (t : tree) (q : pfx) (t' : tree) : Prop :=
+  wf_under b t' /\
+  (forall e, In e (entries t') <-> In e (entries t) /\ ~ prefix_of (bits q) (key e)) /\
+  (forall i p v l r, t = Node i p v l r -> exists l' r', t' = Node i p v l' r').
+
+Lemma rc_tree_spec t : forall b q a,
+  wf_under b t -> ok q -> root_covers t q -> root_strict t q ->
+  rc_post b t q (fst (rc t q a)).
+Proof.
+  induction t as [|i p v l IHl r IHr]; intros b q a Hwf Hq Hrc Hrs.
+  - cbn. split; [exact I|]. split; [intros e; cbn; tauto | intros; discriminate].
+  - pose proof (wf_node_inv _ _ _ _ _ _ Hwf) as [Hp [Hbp [Hl Hr]]].
+    cbn in Hrc, Hrs. rewrite rc_node.
+    destruct (peq p q) eqn:E; [exfalso; apply Hrs; apply peq_true; assumption|].
+    destruct (step_ctx _ _ _ _ _ _ _ Hwf Hq Hrc E) as [_ [Hne [Hc [Hside Hoth]]]].
+    cbv zeta. set (s := to_right p q) in *.
+    assert (IHc : forall b q a, wf_under b (child_of l r s) -> ok q -> root_covers (child_of l r s) q ->
+                    root_strict (child_of l r s) q -> rc_post b (child_of l r s) q (fst (rc (child_of l r s) q a)))
+      by (destruct s; assumption).
+    assert (Hfin : forall c',
+               wf_under (bits p ++ [s]) c' ->
+               (forall e, In e (entries c') <-> In e (entries (child_of l r s)) /\ ~ prefix_of (bits q) (key e)) ->
+               rc_post b (Node i p v l r) q (with_child i p v l r s c')).
+    { intros c' Hwc Hec.
+      destruct (with_child_spec b i p v l r s c' (fun _ => False) (fun e => ~ prefix_of (bits q) (key e)))
+        as [W1 W2]; try assumption.
+      - intros x0 _ H. apply Hne. apply prefix_of_antisym; assumption.
+      - intros e He. apply (Hoth e He).
+      - intros e. rewrite Hec. tauto.
+      - split; [exact W1|]. split; [intros e; rewrite W2; tauto|].
+        intros i0 p0 v0 l0 r0 E0. inversion E0; subst. apply with_child_root. }
+    assert (Hsame : (forall e, In e (entries (child_of l r s)) -> ~ prefix_of (bits q) (key e)) ->
+                    rc_post b (Node i p v l r) q (Node i p v l r)).
+    { intros Hno. rewrite <- (child_of_with_child_id i p v l r s) at 2. apply Hfin; [exact Hc|].
+      intros e. specialize (Hno e). tauto. }
+    assert (Hdrop : (forall e, In e (entries (child_of l r s)) -> prefix_of (bits q) (key e)) ->
+                    rc_post b (Node i p v l r) q (with_child i p v l r s Leaf)).
+    { intros Hall. apply Hfin; [exact I|]. intros e. specialize (Hall e). cbn [entries In]. tauto. }
+    remember (child_of l r s) as c eqn:Ec.
+    destruct c as [|ci cp cv cl cr]; [cbn [fst]; apply Hsame; intros e []|].
+    pose proof (wf_node_inv _ _ _ _ _ _ Hc) as [Hcp _].
+    assert (Hund : forall e, In e (entries (Node ci cp cv cl cr)) -> prefix_of (bits cp) (key e)).
+    { intros e He. eapply entries_under; [eapply wf_self; exact Hc | exact He]. }
+    destruct (contains cp q) eqn:C1.
+    + destruct (peq cp q) eqn:E2.
+      * cbn [fst]. apply Hdrop. intros e He. rewrite <- (peq_true cp q Hcp Hq E2). apply Hund. exact He.
+      * specialize (IHc (bits p ++ [s]) q a Hc Hq (contains_true cp q Hcp Hq C1) (peq_false cp q Hcp Hq E2)).
+        destruct (rc (Node ci cp cv cl cr) q a) as [c' a']. cbn [fst] in *.
+        destruct IHc as [W1 [W2 _]]. apply Hfin; assumption.
+    + destruct (contains q cp) eqn:C2; cbn [fst].
+      * apply Hdrop. intros e He. eapply prefix_of_trans; [apply contains_true; eassumption | apply Hund; exact He].
+      * apply Hsame. intros e He Hcov.
+        destruct (prefix_of_comparable _ _ _ Hcov (Hund e He)) as [A|A].
+        -- eapply contains_false; [exact Hq | exact Hcp | exact C2 | exact A].
+        -- eapply contains_false; [exact Hcp | exact Hq | exact C1 | exact A].
+Qed.
+
+(** ** Main theorem for [rc] *)
+Theorem rc_spec b t q a t' a' :
+  wf_under b t -> ok q -> root_covers t q -> root_strict t q ->
+  rc t q a = (t', a') ->
+  wf_under b t' /\
+  (forall e, In e (entries t') <-> In e (entries t) /\ ~ prefix_of (bits q) (key e)) /\
+  (forall i p v l r, t = Node i p v l r -> exists l' r', t' = Node i p v l' r').
+Proof.
+  intros Hwf Hq Hrc Hrs H. pose proof (rc_tree_spec t b q a Hwf Hq Hrc Hrs) as P.
+  rewrite H in P. exact P.
+Qed.
+
+(** why [root_strict] is needed: at a node whose key IS the query, [rc] changes nothing, so a
+    value stored there survives although the query covers it *)
+Lemma rc_reached_unchanged i p x l r q a :
+  ok p -> ok q -> bits p = bits q ->
+  rc (Node i p (Some x) l r) q a = (Node i p (Some x) l r, a) /\
+  In (p, x) (entries (fst (rc (Node i p (Some x) l r) q a))) /\ prefix_of (bits q) (key (p, x)).
+Proof.
+  intros Hp Hq Hk. rewrite rc_node, (peq_refl_bits p q Hp Hq Hk). cbn [fst].
+  split; [reflexivity|]. split; [apply (in_entries_own pfx V) | unfold TrieWf.key; cbn [fst]; rewrite Hk; apply prefix_of_refl].
+Qed.
+
+(* ---------------------------------------------------------------------------------------- *)
+(** * Map level *)
+
+Lemma wf_root_inv t q : wf_root t -> wf_under [] t /\ root_covers t q /\ t <> Leaf /\ bits (tpfx t) = [].
+Proof.
+  destruct t as [|i p v l r]; [intros []|]. intros [Eb Hwf].
+  split; [exact Hwf|]. split; [cbn; rewrite Eb; apply prefix_of_nil|]. split; [discriminate | exact Eb].
+Qed.
+
+Lemma wf_root_intro t : wf_under [] t -> t <> Leaf -> bits (tpfx t) = [] -> wf_root t.
+Proof. destruct t; [congruence|]. cbn. auto. Qed.
+
+Theorem empty_spec : wf_root (root empty) /\ entries (root empty) = [].
+Proof.
+  split; [|reflexivity]. cbn.
+  pose proof (zero_spec _ _ _ _ _ _ _ _ _ _ LAWS) as Z. pose proof (zero_ok _ _ _ _ _ _ _ _ _ _ LAWS) as K.
+  rewrite Z. repeat split; try exact K; try apply prefix_of_nil.
+Qed.
+
+Theorem clear_spec m : wf_root (root (clear m)) /\ entries (root (clear m)) = [].
+Proof. exact empty_spec. Qed.
+
+Theorem insert_spec m q x m' o :
+  wf_root (root m) -> ok q -> insert m q x = (m', o) ->
+  wf_root (root m') /\
+  (forall e, In e (entries (root m')) <-> e = (q, x) \/ (In e (entries (root m)) /\ key e <> bits q)) /\
+  o = get (root m) q.
+Proof.
+  intros Hr Hq H. unfold Trie.insert in H.
+  destruct (ins (root m) q x (al m)) as [[t' o'] a'] eqn:I. inversion H; subst. cbn [root].
+  destruct (wf_root_inv _ q Hr) as [Hwf [Hrc [Hnl Hb]]].
+  destruct (ins_spec [] _ q x _ _ _ _ Hwf Hq Hrc Hnl I) as [P1 [P2 [P3 [_ [P5 P6]]]]].
+  split; [apply wf_root_intro; congruence|]. split; assumption.
+Qed.
+
+Theorem vacant_insert_spec m q x :
+  wf_root (root m) -> ok q ->
+  wf_root (root (vacant_insert m q x)) /\
+  (forall e, In e (entries (root (vacant_insert m q x))) <->
+             e = (q, x) \/ (In e (entries (root m)) /\ key e <> bits q)).
+Proof.
+  intros Hr Hq. unfold Trie.vacant_insert.
+  destruct (vins (root m) q x (al m)) as [t' a'] eqn:I. cbn [root].
+  destruct (wf_root_inv _ q Hr) as [Hwf [Hrc [Hnl Hb]]].
+  destruct (vins_spec [] _ q x _ _ _ Hwf Hq Hrc Hnl I) as [P1 [P2 [P3 [_ P5]]]].
+  split; [apply wf_root_intro; congruence | exact P5].
+Qed.
+
+Theorem remove_spec m q m' o :
+  wf_root (root m) -> ok q -> remove m q = (m', o) ->
+  wf_root (root m') /\
+  (forall e, In e (entries (root m')) <-> In e (entries (root m)) /\ key e <> bits q) /\
+  o = get (root m) q.
+Proof.
+  intros Hr Hq H. unfold Trie.remove in H.
+  destruct (rem false (root m) q (al m)) as [[[t' fl] o'] a'] eqn:R. inversion H; subst. cbn [root].
+  destruct (wf_root_inv _ q Hr) as [Hwf [Hrc [Hnl Hb]]].
+  destruct (rem_spec [] false _ q _ _ _ _ _ Hwf Hq Hrc R) as [P1 [P2 [P3 _]]].
+  split; [eapply rem_wf_root; eassumption|]. split; assumption.
+Qed.
+
+(** the hooks of the three [modify]-based operations keep the key *)
+Lemma keeps_key_take q : keeps_key q (fun p _ => (p, None)).
+Proof. intros p v p' v' Hp _ H. inversion H; subst. auto. Qed.
+Lemma keeps_key_put q x : ok q -> keeps_key q (fun _ _ => (q, Some x)).
+Proof. intros Hq p v p' v' Hp Hk H. inversion H; subst. auto. Qed.
+Lemma keeps_key_map q (g : V -> V) : keeps_key q (fun p v => (p, option_map g v)).
+Proof. intros p v p' v' Hp _ H. inversion H; subst. auto. Qed.
+
+Lemma take_entries t q :
+  wf_root t -> ok q ->
+  forall e, In e (entries (modify t q (fun p _ => (p, None)))) <-> In e (entries t) /\ key e <> bits q.
+Proof.
+  intros Hr Hq e. destruct (wf_root_inv _ q Hr) as [Hwf [Hrc _]].
+  destruct (modify_spec t [] q _ Hwf Hq Hrc (keeps_key_take q)) as [_ [P2 _]].
+  rewrite P2. split; [intros [[i [p [v [_ A]]]]|A]; [discriminate | exact A] | auto].
+Qed.
+
+Theorem remove_keep_tree_spec m q m' o :
+  wf_root (root m) -> ok q -> remove_keep_tree m q = (m', o) ->
+  wf_root (root m') /\
+  (forall e, In e (entries (root m')) <-> In e (entries (root m)) /\ key e <> bits q) /\
+  o = get (root m) q /\
+  skel (root m') = skel (root m).
+Proof.
+  intros Hr Hq H. unfold Trie.remove_keep_tree in H. inversion H; subst. cbn [root].
+  split; [apply modify_wf_root; [exact Hr | exact Hq | apply keeps_key_take]|].
+  split; [apply take_entries; assumption|]. split; [reflexivity|].
+  apply skel_modify. reflexivity.
+Qed.
+
+Theorem occ_remove_spec m q m' o :
+  wf_root (root m) -> ok q -> occ_remove m q = (m', o) ->
+  wf_root (root m') /\
+  (forall e, In e (entries (root m')) <-> In e (entries (root m)) /\ key e <> bits q) /\
+  o = get (root m) q /\
+  skel (root m') = skel (root m).
+Proof. exact (remove_keep_tree_spec m q m' o). Qed.
+
+Theorem occ_insert_spec m q x y m' o :
+  wf_root (root m) -> ok q -> get (root m) q = Some y -> occ_insert m q x = (m', o) ->
+  wf_root (root m') /\
+  (forall e, In e (entries (root m')) <-> e = (q, x) \/ (In e (entries (root m)) /\ key e <> bits q)) /\
+  o = Some y /\
+  skelb (root m') = skelb (root m).
+Proof.
+  intros Hr Hq G H. unfold Trie.occ_insert in H. inversion H; subst. cbn [root].
+  destruct (wf_root_inv _ q Hr) as [Hwf [Hrc _]].
+  split; [apply modify_wf_root; [exact Hr | exact Hq | apply keeps_key_put; exact Hq]|].
+  split; [|split; [exact G | eapply skelb_modify; [exact Hwf | exact Hq | apply keeps_key_put; exact Hq]]].
+  intros e. destruct (modify_spec (root m) [] q _ Hwf Hq Hrc (keeps_key_put q x Hq)) as [_ [P2 _]].
+  rewrite P2. unfold mod_new.
+  assert (A : (exists i p v, get_node (root m) q = Some (i, p, v) /\ (q, Some x) = (fst e, Some (snd e))) <-> e = (q, x)).
+  { split.
+    - intros [i [p [v [_ B]]]]. destruct e. cbn in B. congruence.
+    - intros ->. unfold Trie.get in G. destruct (get_node (root m) q) as [[[i p] v]|]; [|discriminate].
+      exists i, p, v. split; reflexivity. }
+  tauto.
+Qed.
+
+Theorem update_value_spec m q g :
+  wf_root (root m) -> ok q ->
+  wf_root (root (update_value m q g)) /\
+  (forall e, In e (entries (root (update_value m q g))) <->
+             (In e (entries (root m)) /\ key e <> bits q) \/
+             (exists y, In (fst e, y) (entries (root m)) /\ key e = bits q /\ snd e = g y)) /\
+  skel (root (update_value m q g)) = skel (root m).
+Proof.
+  intros Hr Hq. unfold Trie.update_value. cbn [root].
+  destruct (wf_root_inv _ q Hr) as [Hwf [Hrc _]].
+  split; [apply modify_wf_root; [exact Hr | exact Hq | apply keeps_key_map]|].
+  split; [|apply skel_modify; reflexivity].
+  intros e. destruct (modify_spec (root m) [] q _ Hwf Hq Hrc (keeps_key_map q g)) as [_ [P2 _]].
+  rewrite P2. unfold mod_new.
+  assert (A : (exists i p v, get_node (root m) q = Some (i, p, v) /\ (p, option_map g v) = (fst e, Some (snd e))) <->
+              (exists y, In (fst e, y) (entries (root m)) /\ key e = bits q /\ snd e = g y)).
+  { split.
+    - intros [i [p [v [G B]]]]. inversion B; subst. destruct v as [y|]; [|discriminate].
+      destruct (get_node_sound _ _ _ _ _ _ Hwf Hq G) as [S1 S2]. exists y.
+      split; [apply S2; reflexivity|]. split; [exact S1 | cbn in *; congruence].
+    - intros [y [Hin [Hk Hs]]].
+      destruct (get_node_complete _ _ _ _ _ Hwf Hq Hrc Hin Hk) as [i G].
+      exists i, (fst e), (Some y). split; [exact G|]. cbn. rewrite Hs. reflexivity. }
+  tauto.
+Qed.
+
+Theorem remove_children_spec m q :
+  wf_root (root m) -> ok q ->
+  wf_root (root (remove_children m q)) /\
+  (forall e, In e (entries (root (remove_children m q))) <->
+             In e (entries (root m)) /\ ~ prefix_of (bits q) (key e)).
+Proof.
+  intros Hr Hq. unfold Trie.remove_children.
+  pose proof (plen_bits _ _ _ _ _ _ _ _ _ _ LAWS q Hq) as Hlen.
+  destruct (plen q =? 0)%N eqn:Z.
+  - apply N.eqb_eq in Z. assert (Eq : bits q = []) by (destruct (bits q); [reflexivity | cbn in Hlen; lia]).
+    destruct (clear_spec m) as [C1 C2]. split; [exact C1|]. intros e. rewrite C2, Eq.
+    split; [intros [] | intros [_ A]; apply A; apply prefix_of_nil].
+  - apply N.eqb_neq in Z. destruct (rc (root m) q (al m)) as [t' a'] eqn:R. cbn [root].
+    destruct (wf_root_inv _ q Hr) as [Hwf [Hrc [Hnl Hb]]].
+    assert (Hrs : root_strict (root m) q).
+    { destruct (root m) as [|i p v l r]; [exact I|]. cbn in *. rewrite Hb. intros E. rewrite <- E in Hlen. cbn in Hlen. lia. }
+    destruct (rc_spec [] _ q _ _ _ Hwf Hq Hrc Hrs R) as [P1 [P2 P3]].
+    split; [|exact P2].
+    destruct (root m) as [|i p v l r]; [congruence|]. destruct (P3 _ _ _ _ _ eq_refl) as [l' [r' ->]].
+    cbn in Hb. split; [exact Hb | exact P1].
+Qed.
+
+(* ---------------------------------------------------------------------------------------- *)
+(** * [from_list]: the last element with a given key wins *)
+
+Lemma fold_insert_spec l : forall m,
+  wf_root (root m) -> (forall e, In e l -> ok (fst e)) ->
+  wf_root (root (fold_left (fun m e => fst (insert m (fst e) (snd e))) l m)) /\
+  forall e, In e (entries (root (fold_left (fun m e => fst (insert m (fst e) (snd e))) l m))) <->
+    (exists l1 l2, l = l1 ++ e :: l2 /\ forall e', In e' l2 -> key e' <> key e) \/
+    (In e (entries (root m)) /\ forall e', In e' l -> key e' <> key e).
+Proof.
+  induction l as [|a l IH]; intros m Hr Hok.
+  - cbn [fold_left]. split; [exact Hr|]. intros e. split.
+    + intros He. right. split; [exact He | intros e' []].
+    + intros [[l1 [l2 [E _]]]|[He _]]; [|exact He]. exfalso. eapply app_cons_not_nil; exact E.
+  - cbn [fold_left].
+    destruct (insert m (fst a) (snd a)) as [m1 o] eqn:I. cbn [fst].
+    assert (Ha : ok (fst a)) by (apply Hok; left; reflexivity).
+    destruct (insert_spec m (fst a) (snd a) m1 o Hr Ha I) as [R1 [R2 _]].
+    destruct (IH m1 R1) as [W1 W2]; [intros e He; apply Hok; right; exact He|].
+    split; [exact W1|]. intros e. rewrite W2, R2. rewrite <- (surjective_pairing a).
+    change (bits (fst a)) with (key a). split.
+    + intros [[l1 [l2 [E H2]]]|[[E|[He Hne]] Hall]].
+      * left. exists (a :: l1), l2. split; [rewrite E; reflexivity | exact H2].
+      * left. exists [], l. split; [rewrite E; reflexivity | exact Hall].
+      * right. split; [exact He|]. intros e' [<-|He']; [congruence | apply Hall; exact He'].
+    + intros [[l1 [l2 [E H2]]]|[He Hall]].
+      * destruct l1 as [|a1 l1]; cbn [app] in E; inversion E; subst.
+        -- right. split; [left; reflexivity | exact H2].
+        -- left. exists l1, l2. split; [reflexivity | exact H2].
+      * right. split; [|intros e' He'; apply Hall; right; exact He'].
+        right. split; [exact He|]. intros E. apply (Hall a); [left; reflexivity | symmetry; exact E].
+Qed.
+
+Theorem from_list_spec l :
+  (forall e, In e l -> ok (fst e)) ->
+  wf_root (root (from_list l)) /\
+  forall e, In e (entries (root (from_list l))) <->
+            exists l1 l2, l = l1 ++ e :: l2 /\ forall e', In e' l2 -> key e' <> key e.
+Proof.
+  intros Hok. unfold Trie.from_list.
+  destruct (fold_insert_spec l empty (proj1 empty_spec) Hok) as [W1 W2].
+  split; [exact W1|]. intros e. rewrite W2. split; [intros [A|[[] _]]; exact A | auto].
+Qed.
+
+(* ---------------------------------------------------------------------------------------- *)
+(** * List-level refinement: the operations on the strictly sorted association list *)
+
+Lemma beq_spec (a b : list bool) : beq a b = true <-> a = b.
+Proof.
+  unfold beq. rewrite andb_true_iff, !is_prefix_spec. split.
+  - intros [A B]. apply prefix_of_antisym; assumption.
+  - intros ->. split; apply prefix_of_refl.
+Qed.
+
+Lemma nbeq_spec (a b : list bool) : negb (beq a b) = true <-> a <> b.
+Proof.
+  rewrite negb_true_iff. split.
+  - intros H E. apply beq_spec in E. congruence.
+  - intros H. destruct (beq a b) eqn:E; [|reflexivity]. apply beq_spec in E. contradiction.
+Qed.
+
+Lemma nprefix_spec (a b : list bool) : negb (is_prefix a b) = true <-> ~ prefix_of a b.
+Proof.
+  rewrite negb_true_iff. split.
+  - intros H E. apply is_prefix_spec in E. congruence.
+  - intros H. destruct (is_prefix a b) eqn:E; [|reflexivity]. apply is_prefix_spec in E. contradiction.
+Qed.
+
+Lemma sorted_filter (f : pfx * V -> bool) (l : list (pfx * V)) :
+  StronglySorted key_lt l -> StronglySorted key_lt (filter f l).
+Proof.
+  induction l as [|x l IH]; intros H; cbn [filter]; [constructor|].
+  inversion H as [|? ? Hs Hf]; subst. destruct (f x); [|apply IH; exact Hs].
+  constructor; [apply IH; exact Hs|]. rewrite Forall_forall in *. intros e He.
+  apply filter_In in He. apply Hf. apply He.
+Qed.
+
+(** the abstract operations *)
+Definition a_remove (A : list (pfx * V)) (q : pfx) : list (pfx * V) :=
+  filter (fun e => negb (beq (key e) (bits q))) A.
+Definition a_remove_children (A : list (pfx * V)) (q : pfx) : list (pfx * V) :=
+  filter (fun e => negb (is_prefix (bits q) (key e))) A.
+
+Lemma in_a_remove A q e : In e (a_remove A q) <-> In e A /\ key e <> bits q.
+Proof. unfold a_remove. rewrite filter_In, nbeq_spec. reflexivity. Qed.
+Lemma in_a_remove_children A q e : In e (a_remove_children A q) <-> In e A /\ ~ prefix_of (bits q) (key e).
+Proof. unfold a_remove_children. rewrite filter_In, nprefix_spec. reflexivity. Qed.
+
+Lemma wf_root_sorted t : wf_root t -> StronglySorted key_lt (entries t).
+Proof. intros Hr. destruct (wf_root_inv t pzero Hr) as [Hwf _]. eapply entries_sorted; exact Hwf. Qed.
+
+(** two well-formed maps with the same members have the same entry list *)
+Lemma entries_ext t (A : list (pfx * V)) :
+  wf_root t -> StronglySorted key_lt A -> (forall e, In e (entries t) <-> In e A) -> entries t = A.
+Proof. intros Hr HA H. apply (sorted_ext pfx V bits); [apply wf_root_sorted; exact Hr | exact HA | exact H]. Qed.
+
+Theorem remove_refines m q :
+  wf_root (root m) -> ok q ->
+  entries (root (fst (remove m q))) = a_remove (entries (root m)) q.
+Proof.
+  intros Hr Hq. destruct (remove m q) as [m' o] eqn:R. cbn [fst].
+  destruct (remove_spec m q m' o Hr Hq R) as [P1 [P2 _]].
+  apply entries_ext; [exact P1 | apply sorted_filter; apply wf_root_sorted; exact Hr|].
+  intros e. rewrite P2, in_a_remove. reflexivity.
+Qed.
+
+Theorem remove_keep_tree_refines m q :
+  wf_root (root m) -> ok q ->
+  entries (root (fst (remove_keep_tree m q))) = a_remove (entries (root m)) q.
+Proof.
+  intros Hr Hq. destruct (remove_keep_tree m q) as [m' o] eqn:R. cbn [fst].
+  destruct (remove_keep_tree_spec m q m' o Hr Hq R) as [P1 [P2 _]].
+  apply entries_ext; [exact P1 | apply sorted_filter; apply wf_root_sorted; exact Hr|].
+  intros e. rewrite P2, in_a_remove. reflexivity.
+Qed.
+
+Theorem occ_remove_refines m q :
+  wf_root (root m) -> ok q ->
+  entries (root (fst (occ_remove m q))) = a_remove (entries (root m)) q.
+Proof. exact (remove_keep_tree_refines m q). Qed.
+
+Theorem remove_children_refines m q :
+  wf_root (root m) -> ok q ->
+  entries (root (remove_children m q)) = a_remove_children (entries (root m)) q.
+Proof.
+  intros Hr Hq. destruct (remove_children_spec m q Hr Hq) as [P1 P2].
+  apply entries_ext; [exact P1 | apply sorted_filter; apply wf_root_sorted; exact Hr|].
+  intros e. rewrite P2, in_a_remove_children. reflexivity.
+Qed.
+
+Theorem clear_refines m : entries (root (clear m)) = [].
+Proof. reflexivity. Qed.
+
+(** [remove] and [remove_keep_tree] are observationally the same on the entry list *)
+Corollary remove_keep_tree_same_entries m q :
+  wf_root (root m) -> ok q ->
+  entries (root (fst (remove_keep_tree m q))) = entries (root (fst (remove m q))).
+Proof. intros Hr Hq. rewrite remove_refines, remove_keep_tree_refines by assumption. reflexivity. Qed.
+
 End MU.
+
+Print Assumptions ins_spec.
+Print Assumptions vins_spec.
+Print Assumptions rem_spec.
+Print Assumptions modify_spec.
+Print Assumptions rc_spec.
+Print Assumptions empty_spec.
+Print Assumptions clear_spec.
+Print Assumptions insert_spec.
+Print Assumptions vacant_insert_spec.
+Print Assumptions remove_spec.
+Print Assumptions remove_keep_tree_spec.
+Print Assumptions occ_remove_spec.
+Print Assumptions occ_insert_spec.
+Print Assumptions update_value_spec.
+Print Assumptions remove_children_spec.
+Print Assumptions from_list_spec.
+Print Assumptions remove_refines.
+Print Assumptions remove_keep_tree_refines.
+Print Assumptions occ_remove_refines.
+Print Assumptions remove_children_refines.
+Print Assumptions clear_refines.
